@@ -2916,7 +2916,11 @@ impl platform::Symbol for SymtabEntry {
     }
 
     fn has_name(&self) -> bool {
+        // A section symbol stands for its section whether or not the producer gave it a name (our
+        // own `-r` output and some other linkers' name them): references through it take the addend
+        // into account before the referenced string of a merge section is determined.
         object::read::elf::Sym::st_name(self, LittleEndian) != 0
+            && object::read::elf::Sym::st_type(self) != object::elf::STT_SECTION
     }
 
     fn debug_string(&self) -> String {
